@@ -2,7 +2,10 @@
 """Regenerate /verif/MANIFEST.json from checks.json (single source of truth) and validate it."""
 import json, os, subprocess, sys
 V = os.path.dirname(os.path.dirname(os.path.abspath(__file__)))
-checks = json.load(open(os.path.join(V, "checks.json")))
+import glob
+checks = {}
+for _p in sorted(glob.glob(os.path.join(V, "checks.d", "*.json"))):
+    checks.update(json.load(open(_p)))
 props = [json.loads(l) for l in open(os.path.join(V, "properties.jsonl"))]
 hook_commits = ["4bb4399"]
 m = {
